@@ -689,6 +689,44 @@ def r09g(ctx):
                            f"and the removal then fails, leaving text displaced and the markup in place")
 
 
+def r09h(ctx):
+    """The n-th occurrence is taken from the list of all occurrences in the node.
+
+    A regex-addressed mark names an occurrence by number; -1 is the last one.  The helpers first choose the text node, then the match
+    inside it: `list(regex.finditer(text))[k]`.  `regex.search(text)` is occurrence number 0 of that node — right only when the node holds
+    a single match, which is all the tests try.  Rule: in `_search_negative_position` / `_search_positive_position` the match that is
+    returned is a subscript of the finditer list of the chosen node; for the negative helper the subscript is -1.
+    """
+    repo = ctx.repo
+    ctx.rule("R09h", "the position helpers return list(regex.finditer(node))[k] — the last match for a negative position — never the first match of search()", floor=2)
+    for q, neg in (("Element._search_negative_position", True), ("Element._search_positive_position", False)):
+        f = repo.func(q)
+        rets = [r.value for r in walk_no_nested(f.node) if isinstance(r, ast.Return) and isinstance(r.value, ast.Tuple) and len(r.value.elts) == 2]
+        if not rets:
+            raise AnalysisError(f"R09h: {q} no longer returns (text, match)")
+        for rv in rets:
+            m = rv.elts[1]
+            for _ in range(3):
+                if isinstance(m, ast.Name):
+                    ds = [a.value for a in walk_no_nested(f.node) if isinstance(a, (ast.Assign, ast.NamedExpr)) and (
+                        any(isinstance(t, ast.Name) and t.id == m.id for t in a.targets) if isinstance(a, ast.Assign) else a.target.id == m.id)]
+                    if len({ast.dump(d) for d in ds}) == 1:
+                        m = ds[0]
+                        continue
+                break
+            base = m.value if isinstance(m, ast.Subscript) else None
+            if isinstance(base, ast.Name):
+                ds = [a.value for a in walk_no_nested(f.node) if isinstance(a, ast.Assign) and any(isinstance(t, ast.Name) and t.id == base.id for t in a.targets)]
+                base = ds[0] if len(ds) == 1 else base
+            is_sub = base is not None and any(isinstance(c, ast.Call) and call_name(c) == "finditer" for c in ast.walk(base))
+            ok = is_sub and (not neg or (isinstance(m.slice, ast.UnaryOp) and isinstance(m.slice.op, ast.USub) and isinstance(m.slice.operand, ast.Constant) and m.slice.operand.value == 1))
+            ctx.instance("R09h", f"{f.file}:{f.ident}", f"returns `{norm(m, 50)}`", ok=ok, nontrivial=True, line=rv.lineno)
+            if not ok:
+                ctx.report("R09h", f, rv, f"{f.name} returns {norm(m, 50)}",
+                           f"{f.name} hands back `{norm(m, 40)}` as the match: " + ("search()/match() give the FIRST occurrence in the node" if not is_sub else "not the last entry of the finditer list") +
+                           f" — with several occurrences in the chosen text node a mark asked for at position {'-1' if neg else 'k'} is placed on another occurrence than the one addressed")
+
+
 def run(ctx):
     r09a(ctx)
     r09b(ctx)
@@ -697,6 +735,7 @@ def run(ctx):
     r09e(ctx)
     r09f(ctx)
     r09g(ctx)
+    r09h(ctx)
     # strip_tags and the span builders re-attach every text piece through Element.append: a substitution there that touches more than U+0020 rewrites text
     # that lies outside the markup being inserted or removed (part of a rule shared with C16)
     from .c16 import r16i
@@ -709,6 +748,11 @@ from ..selftest import Seed, unparse_seed  # noqa: E402
 _P = "src/odfdo/paragraph.py"
 _EL = "src/odfdo/element.py"
 SEEDS = [
+    Seed("negative position takes the first match of the last matching node", "fault", _EL,
+         "        text = None\n        for a_text in xpath_result:\n            if regex.search(str(a_text)) is not None:\n                text = a_text\n        if text is None:\n            raise ValueError(f\"Text not found: '{xpath_result}'\")\n        if not isinstance(text, str):\n            raise TypeError(f\"Text not found or text not of type str: '{text}'\")\n        return text, list(regex.finditer(text))[-1]",
+         "        for text in reversed(xpath_result):\n            sre = regex.search(str(text))\n            if sre is not None:\n                break\n        else:\n            raise ValueError(f\"Text not found: '{xpath_result}'\")\n        if not isinstance(text, str):\n            raise TypeError(f\"Text not found or text not of type str: '{text}'\")\n        return text, sre", "R09h"),
+    Seed("negative position names the list of matches first", "neutral", _EL,
+         "        return text, list(regex.finditer(text))[-1]", "        found = list(regex.finditer(text))\n        return text, found[-1]"),
     Seed("ReferenceMarkStart.delete asks its own parent to remove the end mark", "fault", "src/odfdo/reference.py",
          "        if end:\n            end.delete()\n        # act like normal delete\n        return super().delete()", "        if end:\n            parent.delete(end)\n        # act like normal delete\n        return parent.delete(self)", "R09g"),
     Seed("ReferenceMarkStart.delete asks the end mark's own parent", "neutral", "src/odfdo/reference.py",
